@@ -168,7 +168,7 @@ func (vc *VC) QuerySliced(o *Obligation, prelude string, splitAsserts []T, wantM
 	for _, s := range splitAsserts {
 		if strings.HasPrefix(s.S, "(= ") {
 			parts := strings.Fields(strings.TrimSuffix(strings.TrimPrefix(s.S, "(= "), ")"))
-			if len(parts) == 2 && !strings.HasPrefix(parts[0], "(") && !strings.HasPrefix(parts[0], "#") {
+			if len(parts) == 2 && !strings.HasPrefix(parts[0], "(") && !strings.HasPrefix(parts[0], "#") && vc.isDeclaredConst(parts[0], o.nDecls) {
 				subst["(declare-const "+parts[0]+" "] = parts[1]
 				continue
 			}
@@ -470,4 +470,16 @@ func (vc *VC) LightSlice(o *Obligation, limit int) map[int]bool {
 		}
 	}
 	return keep
+}
+
+// isDeclaredConst reports whether name is introduced by a declare-const (rather than a define-fun)
+// among the first n declarations.
+func (vc *VC) isDeclaredConst(name string, n int) bool {
+	pre := "(declare-const " + name + " "
+	for _, d := range vc.decls[:n] {
+		if strings.HasPrefix(d, pre) {
+			return true
+		}
+	}
+	return false
 }
